@@ -337,6 +337,14 @@ pub fn run(tier: Tier, args: &[String]) -> i32 {
         }
     }
     // the scripted scale family (both tiers)
+    // effect-enum shapes: a second, small app whose #[effect] enum is unusual (see c09_shapes.rs)
+    let shapes = crate::c09_shapes::explore(tier.pick(3, 4));
+    for (key, what, replay) in &shapes.violations {
+        rep.violation(mc_kit::Violation { key: key.clone(), what: what.clone(), replay: replay.clone(), size: 10 });
+    }
+    if shapes.violations.is_empty() && shapes.distinct_request_lists < 5 {
+        mc_kit::machinery_error("C09 effect shapes: fewer than 5 distinct request lists (vacuous)");
+    }
     let scale_t0 = rep.elapsed();
     let scripts = scale_scripts();
     let v = V { rep: &rep };
@@ -403,6 +411,14 @@ pub fn run(tier: Tier, args: &[String]) -> i32 {
         "transitions": total.nodes.saturating_sub(1),
         "steps_executed_including_prefix_replays": total.steps_executed,
         "reduced_menu_deep_run_nodes (also compared with the twin, not included in states)": reduced_nodes,
+        "effect_enum_shapes": {
+            "what": "a second app whose #[effect] enum has two variants over one generic operation type (StoreRequest<Disk> / StoreRequest<Cloud>), a variant named unlike its operation (Alias(PingOperation)), a variant named like another operation's stem (Ping(PingRequest)) and Render: every event sequence up to the depth bound over 5 menu events (one per variant, one issuing all four in one batch) x every order of answering what is outstanding (all permutations up to 4 requests, three orders beyond), typed core / bincode bridge / JSON bridge side by side",
+            "oracle": "decoded requests of both bridges equal the typed core's after every step (variant, payload, order), ids of outstanding requests pairwise distinct, decoded views equal at the end",
+            "depth_bound": tier.pick(3, 4),
+            "histories": shapes.histories,
+            "calls": shapes.steps,
+            "distinct_request_lists": shapes.distinct_request_lists,
+        },
         "unserializable_output": {
             "what": "menu events FailTwo ([ordinary request, request whose operation's Serialize fails] in one batch), FailOne (that request alone) and FussyView (toggles a model state whose view's Serialize fails) in a reduced-menu run {Single, FailTwo, FailOne, FussyView} + answers + the undecodable step, depth 5 (quick) / 6 (thorough)",
             "oracle": "the failing step must be answered SerializeRequests by BOTH bridges (serde_json fails the same way as bincode) and Ok by the typed core; the shell never sees those requests, so the twin's are dropped; a view that cannot be serialized must be answered SerializeView by both bridges while the typed core has one; every LATER step's bytes must decode (strictly, no trailing bytes) to exactly the twin's effects and view for that step",
@@ -475,6 +491,9 @@ pub fn replay_file(path: &str) -> i32 {
         mc_kit::machinery_error(&format!("cannot read replay {path}: {e}"));
     });
     let v: serde_json::Value = serde_json::from_str(&text).expect("replay is not JSON");
+    if v["case"]["engine"] == "bridgex/effect-shapes" {
+        return crate::c09_shapes::replay(&v["case"]);
+    }
     let steps: Vec<Step> =
         serde_json::from_value(v["case"]["steps"].clone()).expect("replay has no steps");
     println!("replaying [{}] on typed core, bincode bridge, JSON bridge", show_steps(&steps));
